@@ -110,7 +110,17 @@ fn make_palette(rng: &mut Rng, p: &TreeParams) -> Vec<AffFunc> {
             pal.push(rand_aff(rng, p.out_dim, p.in_dim));
         } else {
             let mut f = rng.pick(&pal).clone();
-            if rng.chance(1, 2) {
+            if rng.chance(1, 4) {
+                // differs from another palette entry by one unit in the last place (or by 2^-60 at zero): still a
+                // different function, the decision above two such terminals must stay
+                let r = rng.below(p.out_dim);
+                if rng.chance(1, 2) {
+                    f.bias[r] = nudge(f.bias[r], rng.chance(1, 2));
+                } else {
+                    let c = rng.below(p.in_dim);
+                    f.mat[[r, c]] = nudge(f.mat[[r, c]], rng.chance(1, 2));
+                }
+            } else if rng.chance(1, 2) {
                 let r = rng.below(p.out_dim);
                 f.bias[r] += 1.0;
             } else {
